@@ -17,7 +17,10 @@ Definition vbools (l:list bool) : val := VL (map vbool l).
 Definition entry_C20 (v:val) : val :=
   match v with
   | VL [VZ 1; VZ s; VZ e; VZ unit; VZ delta] =>
-      of_res vlist (get_periods (periods_fuel s e unit delta) s e unit delta)
+      (* unit = 0 encodes an argument the validation of lines 32-37 rejects (period not a str /
+         not one of day(s), week(s); delta not an int): ValueError before any arithmetic *)
+      if unit =? 0 then of_res vlist (Raise E_ValueError)
+      else of_res vlist (get_periods (periods_fuel s e unit delta) s e unit delta)
   | VL [VZ 2; VZ dlen; ts; flt; s; e] =>
       match as_list ts, as_optbools flt, as_optZ s, as_optZ e with
       | Some ts, Some flt, Some s, Some e =>
@@ -33,6 +36,17 @@ Definition entry_C20 (v:val) : val :=
       match as_list pbd, as_list days, as_optbools inrg with
       | Some pbd, Some days, Some inrg => of_res vlist (get_period_offsets pbd days inrg)
       | _, _, _ => vbad
+      end
+  | VL [VZ 5; VZ dlen; VZ s; VZ e; VZ unit; VZ delta; ts; flt; VZ e2] =>
+      (* the pipeline of the get_period_offsets docstring *)
+      match as_list ts, as_optbools flt with
+      | Some ts, Some flt =>
+          of_res vlist
+            (do l <- get_periods (periods_fuel s e unit delta) s e unit delta;
+             do m <- generate_period_offset_map dlen l;
+             do '(days, fl) <- get_days dlen ts flt (Some s) (Some e2);
+             get_period_offsets m days fl)
+      | _, _ => vbad
       end
   | _ => vbad
   end.
